@@ -62,6 +62,17 @@ func c07Enumerate(tier string, seed int64, emit func(string, any)) {
 			}
 		}
 	}
+	// budget sweep: every budget 1..64 (the exact value at which the counter meets the budget matters) x {random, max}
+	for _, src := range []string{"5a2m2", "5c2m2", "20000a2", "20a2m3k2", "3c2m3", "2a10 + 2a10", "i=0; while 1 { i = i + 1 }", "func g(n){ g(n+1) }; g(0)", "&a = a + 1; a", "100d6", "x='a'; while 1 { x = x + x }", "[1..100].kh(50) + 3a2", "b3 + 5a2", "f + f + 4c2"} {
+		for b := int64(1); b <= 64; b++ {
+			for _, mode := range []int{0, 2} {
+				c := drv.AllOn()
+				c.OpLimit, c.ParseLimit = b, 100000
+				c.Max = mode == 2
+				emit("budget sweep 1..64", c07Case{Src: src, Cfg: c})
+			}
+		}
+	}
 	// parse budget: long / deep sources under small and large parse budgets
 	for _, n := range []int{10, 100, 1000, 5000} {
 		for _, pl := range []uint64{10000, 1000000} {
@@ -187,7 +198,7 @@ func c07Run(raw json.RawMessage) harn.Result {
 func init() {
 	harn.Register(&harn.Check{
 		ID:   "C07",
-		Rule: "adversarial family: every work-producing construct (XdY, keep/drop, CoC, WoD / Double Cross incl. exploding pools with add-line 2, while, direct / mutual / unbounded recursion, self-referential computed values, ranges, array and string doubling, nested-array doubling and its printing / comparison, kh / randSize / shuffle / sum in loops, Fate / CoC in loops, dict growth, nested implicit dice) x magnitudes {20 .. 2^62} x budgets {200, 30000} x {random, min, max} mode; long and deep sources x parse budgets {10^4, 10^6}; capacities (8192 instructions in main code, function body and computed body; 20 blocks; 20 template holes; 1000 stack slots; 512 elements) just below / at / above with the value of the FULL program known; every control-flow program under budget 200. Deterministic work meter W = VM instructions dispatched (VerifStep) + dice drawn (VerifRoll). Oracles: W <= 600*budget+1000; W <= 600*NumOpCount+1000 whenever a value is returned; a returned value implies NumOpCount <= budget; exceeding the parse budget is an error, never a panic; beyond a capacity the program errors or returns the value of the full program, never of a prefix; a worker OOM / 60 s watchdog on a budgeted case is a violation. Non-trivial = program parses; distinct by (program, configuration).",
+		Rule: "adversarial family: every work-producing construct (XdY, keep/drop, CoC, WoD / Double Cross incl. exploding pools with add-line 2, while, direct / mutual / unbounded recursion, self-referential computed values, ranges, array and string doubling, nested-array doubling and its printing / comparison, kh / randSize / shuffle / sum in loops, Fate / CoC in loops, dict growth, nested implicit dice) x magnitudes {20 .. 2^62} x budgets {200, 30000} x {random, min, max} mode; long and deep sources x parse budgets {10^4, 10^6}; capacities (8192 instructions in main code, function body and computed body; 20 blocks; 20 template holes; 1000 stack slots; 512 elements) just below / at / above with the value of the FULL program known; every control-flow program under budget 200; 14 unbounded / exploding programs under EVERY budget 1..64 in random and max mode. Deterministic work meter W = VM instructions dispatched (VerifStep) + dice drawn (VerifRoll). Oracles: W <= 600*budget+1000; W <= 600*NumOpCount+1000 whenever a value is returned; a returned value implies NumOpCount <= budget; exceeding the parse budget is an error, never a panic; beyond a capacity the program errors or returns the value of the full program, never of a prefix; a worker OOM / 60 s watchdog on a budgeted case is a violation. Non-trivial = program parses; distinct by (program, configuration).",
 		Assume: []string{"factor 600 = the largest work a single counted operation may hide by design (a native method over a 512-element container); an uncharged construct is unbounded and exceeds any constant", "work inside native loops that draw no dice is visible only to the coarse OOM / watchdog oracle"},
 		Enumerate:   c07Enumerate,
 		Run:         c07Run,
